@@ -366,9 +366,9 @@ func (b *ByteBuffer) PrepareRead(n int) (err error) {
 // in the callback and the unused bytes will be used in future claims.
 func (b *ByteBuffer) Claim(fn func(b []byte) int) {
 	n := fn(b.data[b.wi:cap(b.data)])
-	if wi := b.wi + n; n >= 0 && wi <= cap(b.data) {
+	if n >= 0 && n <= cap(b.data)-b.wi {
 		// wi <= cap(b.data) because the invariant is that b.wi = min(len(b.data), cap(b.data)) after each call
-		b.wi = wi
+		b.wi += n
 		b.data = b.data[:b.wi]
 	}
 }
@@ -378,9 +378,9 @@ func (b *ByteBuffer) Claim(fn func(b []byte) int) {
 // Callers do not have the option to write less than they claim. The write area
 // will grow by `n`.
 func (b *ByteBuffer) ClaimFixed(n int) (claimed []byte) {
-	if wi := b.wi + n; n >= 0 && wi <= cap(b.data) {
-		claimed = b.data[b.wi:wi]
-		b.wi = wi
+	if n >= 0 && n <= cap(b.data)-b.wi {
+		claimed = b.data[b.wi : b.wi+n]
+		b.wi += n
 		b.data = b.data[:b.wi]
 	}
 	return
